@@ -37,11 +37,12 @@ FieldKinds(self) == {"i2i", "i2s", "ptrA", "ptrB", "slcA", "slcB"} \cup (IF self
 \* further kinds (second program set): string -> string, and maps with a named-struct value, a converted key, a converted value
 \* ... and *B -> B2, *int -> string through E (SourcePointer, needs useZeroValueOnPointerInconsistency: the harness sets it for these programs)
 \* ... and a target field int matched with a source *method* F() int / F() (int, error) (fallible iff extErr)
-MoreKinds == {"s2s", "mapB", "mapK", "mapV", "mapKV", "p2vB", "p2s", "mth"}
+\* ... int -> *string through E (a value source with a pointer target)
+MoreKinds == {"s2s", "mapB", "mapK", "mapV", "mapKV", "p2vB", "p2s", "mth", "i2ps"}
 \* third program set (useUnderlyingTypeMethods): NI (named int) -> string through E on the underlying type; LP (named []*int) -> []int
 \* through the declared method ConvL(source []*int) []int, the only method with useZeroValueOnPointerInconsistency
 UnderKinds == {"nI2s", "nL"}
-SrcT(fk) == CASE fk \in {"i2i", "i2s"} -> INT
+SrcT(fk) == CASE fk \in {"i2i", "i2s", "i2ps"} -> INT
               [] fk = "s2s" -> STR [] fk = "p2s" -> P(INT) [] fk = "mth" -> [k |-> "meth", b |-> "int"]
               [] fk = "nI2s" -> NN("NI", INT) [] fk = "nL" -> NN("LP", S(P(INT)))
               [] fk = "mapB" -> M(STR, N("B")) [] fk \in {"mapK", "mapKV"} -> M(INT, INT) [] fk = "mapV" -> M(STR, INT)
@@ -49,7 +50,7 @@ SrcT(fk) == CASE fk \in {"i2i", "i2s"} -> INT
               [] fk = "slcA" -> S(N("A")) [] fk = "slcB" -> S(N("B"))
               [] fk = "valB" -> N("B")
 TgtT(fk) == CASE fk \in {"i2i", "mth"} -> INT [] fk = "i2s" -> STR
-              [] fk \in {"s2s", "p2s", "nI2s"} -> STR [] fk = "nL" -> S(INT)
+              [] fk \in {"s2s", "p2s", "nI2s"} -> STR [] fk = "nL" -> S(INT) [] fk = "i2ps" -> P(STR)
               [] fk = "mapB" -> M(STR, N("B2")) [] fk = "mapK" -> M(STR, INT) [] fk \in {"mapV", "mapKV"} -> M(STR, STR)
               [] fk = "ptrA" -> P(N("A2")) [] fk = "ptrB" -> P(N("B2"))
               [] fk = "slcA" -> S(N("A2")) [] fk = "slcB" -> S(N("B2"))
@@ -276,7 +277,7 @@ ShapesMore == {<<a>> : a \in AllKindsA} \cup {<<a, b>> : a \in AllKindsA, b \in 
 MapKinds == {"mapB", "mapK", "mapV", "mapKV"}
 HasMapKind(sh) == \E i \in DOMAIN sh : sh[i] \in MapKinds
 ProgsMore0 == { [shape |-> [A |-> a, B |-> b], rootErr |-> eb[1], extErr |-> eb[2], rootCtx |-> FALSE, extCtx |-> FALSE, extId |-> xi, wrap |-> w, declB |-> "none", under |-> FALSE, declL |-> FALSE] :
-                 a \in {x \in ShapesMore : \E i \in DOMAIN x : x[i] \in MoreKinds}, b \in {<<"i2i">>, <<"i2s">>, <<"i2s", "ptrB">>, <<"s2s", "i2s">>, <<"p2s", "i2i">>, <<"mth", "i2i">>},
+                 a \in {x \in ShapesMore : \E i \in DOMAIN x : x[i] \in MoreKinds}, b \in {<<"i2i">>, <<"i2s">>, <<"i2s", "ptrB">>, <<"s2s", "i2s">>, <<"p2s", "i2i">>, <<"mth", "i2i">>, <<"i2ps", "slcB">>},
                  eb \in {<<TRUE, TRUE>>, <<FALSE, FALSE>>, <<TRUE, FALSE>>}, xi \in BOOLEAN, w \in {"none", "using", "plain"} }
 ProgsMore == { q \in ProgsMore0 : q.wrap = "plain" => (q.rootErr /\ q.extErr /\ ~HasMapKind(q.shape.A) /\ ~HasMapKind(q.shape.B)) }
 \* programs in which B is reachable from A (otherwise B's shape is irrelevant): one representative shape for B
